@@ -246,6 +246,27 @@ def navigation_check(chk, fails, dis, stats):
             reqs.append(req_def(URIS[0], p))
         jobs.append({"id": i, "op": "lsp", "history": reqs})
         infos.append((t, positions))
+    # sizes: the same scripts inside long documents (thousands of lines, a comment line of 64 KiB and more, in front of the
+    # script or behind it); probed where something is to be found — every variable use and built-in name — and at a few
+    # other places
+    prng = random.Random("C19-long-%d" % chk.seed)
+    for i in range(chk.size(8, 60)):
+        c, g = gen_check.valid_script(chk.seed + 4242, i, {"stmts_max": 2, "depth": 3, "ddepth": 2, "origins": 0.5})
+        t = gen_check.pad_text(c["script"], prng, size=prng.choice([4096, 65530, 65536, 65537, 70000, 140000]))
+        decls, uses = gen_check.scan_vars(t)
+        masked = gen_check.strip_comments_mask(t)
+        offs = [u["start"] + 1 for u in uses] + [d["start"] + 1 for d in decls] + \
+               [mm.start(1) + 1 for mm in re.finditer(r"\b(set_tx_meta|set_account_meta|meta|balance|overdraft)\(", masked)] + \
+               [prng.randrange(len(t)) for _ in range(10)]
+        positions = sorted(set(tuple(gen_check.line_col(t, o)) for o in offs))
+        positions = [list(p_) for p_ in positions]
+        reqs = [req_open(URIS[0], t)]
+        for p_ in positions:
+            reqs.append(req_hover(URIS[0], p_))
+            reqs.append(req_def(URIS[0], p_))
+        jobs.append({"id": len(jobs), "op": "lsp", "history": reqs})
+        infos.append((t, positions))
+    stats["long_documents"] = chk.size(8, 60)
     outs = runner.run_go(jobs)
     acases = [{"script": t, "positions": positions} for t, positions in infos]
     gos, models = A.analyze_both(acases)
